@@ -146,6 +146,24 @@ def main(argv=None):
                           "the %s feature configuration of /repo does not build" % e.config, loc=e.log)
         except AnchorError as e:
             rep.violation("ANCHOR", "anchor:%s" % str(e)[:80], "anchor missing: %s" % e)
+    if tier == "thorough" and os.environ.get("VERIF_SKIP_CONTROLS") != "1" and args.repo == REPO:
+        # controls: seeded breaks on a scratch copy must make this property's rules fire; behaviour-
+        # preserving refactors must stay silent.  Evidence about the checker, not part of the verdict.
+        try:
+            from . import control
+            cs = [c for c in control.load_controls() if c["property"] == pid]
+            rs = control.run_many(cs, jobs=min(8, max(1, len(cs))))
+            for r in rs:
+                rep.controls.append({"name": r["name"], "status": r["status"], "seconds": r.get("seconds"),
+                                     "expect": r.get("expect", ""), "detail": r.get("detail", "")[:200]})
+            fired = sum(1 for r in rs if r["status"] == "fired")
+            silent = sum(1 for r in rs if r["status"] == "silent")
+            other = [r for r in rs if r["status"] not in ("fired", "silent")]
+            print("   controls: %d fired, %d silent (behaviour-preserving), %d other %s" % (
+                fired, silent, len(other), [(r["name"], r["status"]) for r in other]))
+            rep.extra["controls_summary"] = {"fired": fired, "silent": silent, "other": [(r["name"], r["status"]) for r in other]}
+        except Exception as e:  # noqa
+            rep.note("controls could not be run: %s" % e)
     rep.wall = time.time() - t0
     return rep.finish(write=not args.no_evidence, replay=args.replay)
 
